@@ -134,6 +134,36 @@ def check_pure(entries, full_perms):
         obj = t.get_obj(_Odb(), tuple(rel.split("/")))
         if obj != ("FILE", H[entries[rel]]):
             viol.append(("get_obj-file-wrong", f"{rel} -> {obj}"))
+    # overwrite an existing key after trie-backed queries were made: every view must see the new digest
+    for rel in rels:
+        other = H[3 - entries[rel]]
+        t3 = Tree()
+        for r2 in rels:
+            t3.add(tuple(r2.split("/")), None, HashInfo("md5", H[entries[r2]]))
+        t3.digest()
+        for pre in prefixes_of(entries):
+            t3.get_obj(_Odb(), pre)
+            t3.filter(pre)
+        list(t3.iteritems())
+        t3.add(tuple(rel.split("/")), None, HashInfo("md5", other))
+        t3.digest()
+        n += 1
+        new_entries = dict(want_entries)
+        new_entries[rel] = other
+        if t3.oid != ref.tree_oid(new_entries):
+            viol.append(("identifier-stale-after-overwriting-an-entry", f"{rel}"))
+        for pre in prefixes_of(entries):
+            p_ = "/".join(pre) + "/"
+            sub = {r2[len(p_):]: h for r2, h in new_entries.items() if r2.startswith(p_)}
+            obj = t3.get_obj(_Odb(), pre)
+            if obj is None or getattr(obj, "oid", None) != ref.tree_oid(sub):
+                viol.append(("subtree-object-stale-after-overwriting-an-entry", f"overwrote {rel}, prefix={pre}"))
+            got = {"/".join(k): (h.value if h else None) for k, _m, h in t3.filter(pre)}
+            if got != {r2: h for r2, h in new_entries.items() if r2.startswith(p_)}:
+                viol.append(("filter-stale-after-overwriting-an-entry", f"overwrote {rel}, prefix={pre}"))
+        got = {"/".join(k): (v[1].value if v[1] else None) for k, v in t3.iteritems()}
+        if got != new_entries:
+            viol.append(("iteritems-stale-after-overwriting-an-entry", f"overwrote {rel}"))
     real = set(prefixes_of(entries)) | {tuple(r.split("/")) for r in entries}
     cands = [("nope",), ("s", "zz"), ("sx", "zz")] + [(p[0][:-1],) for p in prefixes_of(entries) if len(p[0]) > 1]
     for bogus in cands:
